@@ -84,9 +84,8 @@ theorem reqLoop_no_panic {cfg : ReqCfg} {f : Nat} {s : ReqState u} {rem : Bytes}
       simp only [hs, Option.some.injEq, PRes.fail.injEq] at h; subst h
       exact reqStep_no_panic hI hs
     | ok i s1 c1 =>
-      have hI1 := (requestSys_lawful cfg).inv hI hs
       cases i with
-      | completePart => simp only [hs] at h; exact ih hI1 h
+      | completePart => simp only [hs] at h; exact ih ((requestSys_lawful cfg).inv hI hs (by simp)) h
       | completeWhole => simp [hs] at h
       | incomplete => simp [hs] at h
 
@@ -103,7 +102,8 @@ theorem reqParse_no_panic {cfg : ReqCfg} {s : ReqState u} {raw : Bytes} {e : Fai
 
 /-- invariant of a connection driven by the protocol -/
 def ConnOk (cfg : ReqCfg) (c : GConn Fail (ReqState u)) : Prop :=
-  ReqInv cfg c.st ∧ ∀ e, c.verdict = .failed e → ∃ cat, e = .err cat
+  ((match c.verdict with | .more => True | _ => False) → ReqInv cfg c.st) ∧
+  ∀ e, c.verdict = .failed e → ∃ cat, e = .err cat
 
 theorem deliver_ok {cfg : ReqCfg} {c : GConn Fail (ReqState u)} (h : ConnOk cfg c) (d : Bytes) :
     ConnOk cfg ((requestSys u cfg).deliver c d) := by
@@ -113,15 +113,18 @@ theorem deliver_ok {cfg : ReqCfg} {c : GConn Fail (ReqState u)} (h : ConnOk cfg 
   | failed e => simpa [hv] using h
   | more =>
     simp only
+    have hI : ReqInv cfg c.st := h.1 (by simp [hv])
     cases hp : (requestSys u cfg).parse c.st (c.pending ++ d) with
     | fail e =>
-      refine ⟨h.1, ?_⟩
+      refine ⟨by simp, ?_⟩
       intro e' he'
       simp at he'; subst he'
-      exact reqParse_no_panic h.1 hp
+      exact reqParse_no_panic hI hp
     | ok st s' n =>
-      have := (Sys.parse_inv (requestSys_lawful cfg) h.1 hp).1
-      cases st <;> exact ⟨this, by simp⟩
+      have := (Sys.parse_inv (requestSys_lawful cfg) hI hp).1
+      cases st with
+      | complete => exact ⟨by simp, by simp⟩
+      | incomplete => exact ⟨fun _ => this rfl, by simp⟩
 
 /-- C06 for request parsing on the repaired tree: whatever is delivered, in whatever pieces, under
     whatever limits, the parser answers with a status or an error value, never with a trap -/
@@ -129,7 +132,7 @@ theorem C06_request_no_crash (u : UriImpl) (cfg : ReqCfg) (ds : List Bytes) :
     let c0 : GConn Fail (ReqState u) := { st := Request.new u, pending := [], total := 0, verdict := .more }
     ∀ e, ((requestSys u cfg).run c0 ds).verdict = .failed e → ∃ cat, e = .err cat := by
   intro c0
-  have h0 : ConnOk cfg c0 := ⟨reqInv_new cfg, by simp [c0]⟩
+  have h0 : ConnOk cfg c0 := ⟨fun _ => reqInv_new cfg, by simp [c0]⟩
   suffices ∀ c, ConnOk cfg c → ConnOk cfg ((requestSys u cfg).run c ds) from (this c0 h0).2
   induction ds with
   | nil => intro c hc; exact hc
